@@ -1,0 +1,450 @@
+//go:build verif
+
+// Contracts for the deductive checks (comment-only). Scope: value types of package types
+// (mapping.go labels.go hostList.go command.go healthcheck.go bytes.go duration.go stringOrList.go
+// ssh.go envfile.go device.go cpus.go options.go and the Marshal*/DecodeMapstructure methods of
+// types.go / config.go). Properties served: C03 C09 C16 C20.
+
+package types
+
+// KEY[=VALUE] grammar of the Compose specification: the key is the text before the first '=',
+// the value the text after it; an entry without '=' is a key without value.
+// (written without ite(): the engine puts quantifier bodies into z3 patterns, which reject ite)
+//@ spec iskey(s string, k string) bool = (contains(s, "=") && k == s[0:sindex(s, "=")]) || (!contains(s, "=") && k == s)
+//@ spec kvval(s string) string = s[sindex(s, "=") + 1:len(s)]
+
+// ---------------------------------------------------------------- mapping.go
+
+//@ func NewMappingWithEquals
+//@   nopanic[C03,C16]
+//@   ensures[C03,C16] result != nil && fresh(result)
+//@   ensures[C03,C16] forall i int :: 0 <= i && i < len(values) && contains(values[i], "=") ==> has(result, values[i][0:sindex(values[i], "=")])
+//@   ensures[C03,C16] forall i int :: 0 <= i && i < len(values) && !contains(values[i], "=") ==> has(result, values[i])
+//@   ensures[C03,C16] forall k string :: has(result, k) ==> exists i int :: 0 <= i && i < len(values) && iskey(values[i], k)
+//@?  ensures[C03,C16] forall i int, k string :: 0 <= i && i < len(values) && has(result, k) && iskey(values[i], k) && contains(values[i], "=")
+//@?      && (forall j int :: 0 <= j && j < len(values) && j != i ==> !iskey(values[j], k)) ==> result[k] != nil
+//@   ensures[C03,C16] forall i int, k string :: 0 <= i && i < len(values) && has(result, k) && iskey(values[i], k) && !contains(values[i], "=")
+//@       && (forall j int :: 0 <= j && j < len(values) && j != i ==> !iskey(values[j], k)) ==> result[k] == nil
+//@   loop 1
+//@     invariant -1 <= rangeindex && rangeindex < len(values)
+//@     invariant mapping != nil && fresh(mapping)
+//@     invariant forall i int :: 0 <= i && i <= rangeindex && contains(values[i], "=") ==> has(mapping, values[i][0:sindex(values[i], "=")])
+//@     invariant forall i int :: 0 <= i && i <= rangeindex && !contains(values[i], "=") ==> has(mapping, values[i])
+//@     invariant forall k string :: has(mapping, k) ==> exists i int :: 0 <= i && i <= rangeindex && iskey(values[i], k)
+//@?    invariant forall i int, k string :: 0 <= i && i <= rangeindex && iskey(values[i], k) && contains(values[i], "=")
+//@?      && (forall j int :: 0 <= j && j <= rangeindex && j != i ==> !iskey(values[j], k)) ==> mapping[k] != nil
+//@     invariant forall i int, k string :: 0 <= i && i <= rangeindex && has(mapping, k) && iskey(values[i], k) && !contains(values[i], "=")
+//@       && (forall j int :: 0 <= j && j <= rangeindex && j != i ==> !iskey(values[j], k)) ==> mapping[k] == nil
+
+// C16: `environment` entries override env_file entries: every key of other ends up with other's value,
+// every other key keeps what it had, the receiver is what is returned.
+//@ func (MappingWithEquals).OverrideBy
+//@   nopanic[C16]
+//@   requires m != nil || (forall k string :: !has(other, k))
+//@   ensures[C16] result == m
+//@   ensures[C16] forall k string :: old(has(other, k)) ==> has(m, k) && m[k] == old(other[k])
+//@   ensures[C16] forall k string :: !old(has(other, k)) ==> (has(m, k) <==> old(has(m, k)))
+//@   ensures[C16] forall k string :: !old(has(other, k)) && old(has(m, k)) ==> m[k] == old(m[k])
+//@   ensures[C16] m != other ==> forall k string :: has(other, k) <==> old(has(other, k))
+//@   loop 1
+//@     invariant m != other ==> forall k string :: has(other, k) <==> old(has(other, k))
+//@     invariant m != other ==> forall k string :: has(other, k) ==> other[k] == old(other[k])
+//@     invariant m == other ==> forall k string :: has(m, k) <==> old(has(m, k))
+//@     invariant m == other ==> forall k string :: has(m, k) ==> m[k] == old(m[k])
+//@     invariant forall k string :: seen(k) ==> has(m, k) && m[k] == old(other[k])
+//@     invariant forall k string :: !old(has(other, k)) ==> (has(m, k) <==> old(has(m, k)))
+//@     invariant forall k string :: !old(has(other, k)) && old(has(m, k)) ==> m[k] == old(m[k])
+
+// C16: a key written without a value takes the project environment's value if present there;
+// keys that have a value (including the empty value `KEY=`) and unresolvable keys are untouched.
+// `pure` states the assumption that the lookup callback writes no memory; the receiver's own row is
+// declared in `assigns`.
+//@ func (MappingWithEquals).Resolve
+//@   nopanic[C16]
+//@   pure
+//@   assigns m.*
+//@   requires lookupFn != nil
+//@   ensures[C16] result == m
+//@   ensures[C16] forall k string :: has(m, k) <==> old(has(m, k))
+//@   ensures[C16] forall k string :: old(has(m, k)) && old(m[k]) != nil ==> m[k] == old(m[k])
+//@   ensures[C16] forall k string :: old(has(m, k)) && m[k] != old(m[k]) ==> m[k] != nil && fresh(m[k])
+//@   loop 1
+//@     invariant forall k string :: has(m, k) <==> old(has(m, k))
+//@     invariant forall k string :: old(has(m, k)) && old(m[k]) != nil ==> m[k] == old(m[k])
+//@     invariant forall k string :: old(has(m, k)) && m[k] != old(m[k]) ==> m[k] != nil && fresh(m[k])
+
+//@ func (MappingWithEquals).RemoveEmpty
+//@   nopanic[C16]
+//@   ensures[C16] result == m
+//@   ensures[C16] forall k string :: has(m, k) <==> (old(has(m, k)) && old(m[k]) != nil)
+//@   ensures[C16] forall k string :: has(m, k) ==> m[k] == old(m[k])
+//@   loop 1
+//@     invariant forall k string :: has(m, k) ==> old(has(m, k)) && m[k] == old(m[k])
+//@     invariant forall k string :: old(has(m, k)) && old(m[k]) != nil ==> has(m, k)
+//@     invariant forall k string :: seen(k) && old(m[k]) == nil ==> !has(m, k)
+//@     invariant forall k string :: seen(k) ==> old(has(m, k))
+
+//@ func (MappingWithEquals).ToMapping
+//@   nopanic[C16]
+//@   ensures[C16] result != nil && fresh(result)
+//@   ensures[C16] forall k string :: has(result, k) <==> (has(m, k) && m[k] != nil)
+//@   loop 1
+//@     invariant o != nil && fresh(o)
+//@     invariant forall k string :: has(o, k) <==> (seen(k) && has(m, k) && m[k] != nil)
+
+// label/mapping value: null stays "no value", everything else is a value
+//@ func mappingValue
+//@   nopanic[C03]
+//@   ensures[C03] result == nil <==> e == nil
+
+//@ func (Mapping).Values
+//@   nopanic[C16]
+
+//@ func (Mapping).ToMappingWithEquals
+//@   nopanic[C16]
+//@   ensures[C16] result != nil && fresh(result)
+//@   ensures[C16] forall k string :: has(result, k) <==> has(m, k)
+//@   ensures[C16] forall k string :: has(result, k) ==> result[k] != nil
+//@   loop 1
+//@     invariant mapping != nil && fresh(mapping)
+//@     invariant forall k string :: has(mapping, k) <==> (seen(k) && has(m, k))
+//@     invariant forall k string :: has(mapping, k) ==> mapping[k] != nil
+
+//@ func (Mapping).Resolve
+//@   nopanic[C16]
+//@   ensures[C16] result.1 <==> has(m, s)
+//@   ensures[C16] result.1 ==> result.0 == m[s]
+//@   ensures[C16] !result.1 ==> result.0 == ""
+
+//@ func (Mapping).Clone
+//@   nopanic[C16]
+//@   ensures[C16] result != nil && fresh(result)
+//@   ensures[C16] forall k string :: has(result, k) <==> has(m, k)
+//@   ensures[C16] forall k string :: has(m, k) ==> result[k] == m[k]
+//@   loop 1
+//@     invariant clone != nil && fresh(clone)
+//@     invariant forall k string :: has(clone, k) <==> (seen(k) && has(m, k))
+//@     invariant forall k string :: has(clone, k) ==> clone[k] == m[k]
+
+//@ func (Mapping).Merge
+//@   nopanic[C16]
+//@   requires m != nil || (forall k string :: !has(o, k))
+//@   ensures[C16] result == m
+//@   ensures[C16] forall k string :: old(has(m, k)) ==> has(m, k) && m[k] == old(m[k])
+//@   ensures[C16] forall k string :: !old(has(m, k)) ==> (has(m, k) <==> old(has(o, k)))
+//@   ensures[C16] forall k string :: !old(has(m, k)) && old(has(o, k)) ==> m[k] == old(o[k])
+//@   loop 1
+//@     invariant m != o ==> forall k string :: has(o, k) <==> old(has(o, k))
+//@     invariant m != o ==> forall k string :: has(o, k) ==> o[k] == old(o[k])
+//@     invariant forall k string :: old(has(m, k)) ==> has(m, k) && m[k] == old(m[k])
+//@     invariant forall k string :: !old(has(m, k)) && has(m, k) ==> old(has(o, k)) && m[k] == old(o[k])
+//@     invariant forall k string :: seen(k) ==> has(m, k)
+
+//@ func NewMapping
+//@   nopanic[C03,C16]
+//@   ensures[C03,C16] result != nil && fresh(result)
+//@   ensures[C03,C16] forall i int :: 0 <= i && i < len(values) && contains(values[i], "=") ==> has(result, values[i][0:sindex(values[i], "=")])
+//@   ensures[C03,C16] forall i int :: 0 <= i && i < len(values) && !contains(values[i], "=") ==> has(result, values[i])
+//@   ensures[C03,C16] forall k string :: has(result, k) ==> exists i int :: 0 <= i && i < len(values) && iskey(values[i], k)
+//@   ensures[C03,C16] forall i int, k string :: 0 <= i && i < len(values) && has(result, k) && iskey(values[i], k) && contains(values[i], "=")
+//@       && (forall j int :: 0 <= j && j < len(values) && j != i ==> !iskey(values[j], k)) ==> result[k] == kvval(values[i])
+//@   ensures[C03,C16] forall i int, k string :: 0 <= i && i < len(values) && has(result, k) && iskey(values[i], k) && !contains(values[i], "=")
+//@       && (forall j int :: 0 <= j && j < len(values) && j != i ==> !iskey(values[j], k)) ==> result[k] == ""
+//@   loop 1
+//@     invariant -1 <= rangeindex && rangeindex < len(values)
+//@     invariant mapping != nil && fresh(mapping)
+//@     invariant forall i int :: 0 <= i && i <= rangeindex && contains(values[i], "=") ==> has(mapping, values[i][0:sindex(values[i], "=")])
+//@     invariant forall i int :: 0 <= i && i <= rangeindex && !contains(values[i], "=") ==> has(mapping, values[i])
+//@     invariant forall k string :: has(mapping, k) ==> exists i int :: 0 <= i && i <= rangeindex && iskey(values[i], k)
+//@     invariant forall i int, k string :: 0 <= i && i <= rangeindex && iskey(values[i], k) && contains(values[i], "=")
+//@       && (forall j int :: 0 <= j && j <= rangeindex && j != i ==> !iskey(values[j], k)) ==> mapping[k] == kvval(values[i])
+//@     invariant forall i int, k string :: 0 <= i && i <= rangeindex && has(mapping, k) && iskey(values[i], k) && !contains(values[i], "=")
+//@       && (forall j int :: 0 <= j && j <= rangeindex && j != i ==> !iskey(values[j], k)) ==> mapping[k] == ""
+
+// ---------------------------------------------------------------- labels.go
+
+// C16: labels are layered like the environment; a key without value is not a label
+//@ func NewLabelsFromMappingWithEquals
+//@   nopanic[C16]
+//@   ensures[C16] result != nil && fresh(result)
+//@   ensures[C16] forall k string :: has(result, k) <==> (has(mapping, k) && mapping[k] != nil)
+//@   loop 1
+//@     invariant labels != nil && fresh(labels)
+//@     invariant forall k string :: has(labels, k) <==> (seen(k) && has(mapping, k) && mapping[k] != nil)
+
+//@ func (Labels).Add
+//@   nopanic[C16]
+//@   ensures[C16] result != nil && has(result, key) && result[key] == value
+//@   ensures[C16] l != nil ==> result == l
+//@   ensures[C16] forall k string :: k != key ==> (has(result, k) <==> old(has(l, k)))
+//@   ensures[C16] forall k string :: k != key && old(has(l, k)) ==> result[k] == old(l[k])
+
+//@ func (Labels).AsList
+//@   nopanic[C16]
+
+//@ func (Labels).ToMappingWithEquals
+//@   nopanic[C16]
+//@   ensures[C16] result != nil && fresh(result)
+//@   ensures[C16] forall k string :: has(result, k) <==> has(l, k)
+//@   ensures[C16] forall k string :: has(result, k) ==> result[k] != nil
+//@   loop 1
+//@     invariant mapping != nil && fresh(mapping)
+//@     invariant forall k string :: has(mapping, k) <==> (seen(k) && has(l, k))
+//@     invariant forall k string :: has(mapping, k) ==> mapping[k] != nil
+
+// label value can be a string | number | boolean | null: null is the empty label, a string is itself
+//@ func labelValue
+//@   nopanic[C03]
+//@   ensures[C03] e == nil ==> result == ""
+//@   ensures[C03] isStr(e) ==> result == asStr(e)
+
+// C03: both spellings (mapping / KEY=VALUE list) are accepted, anything else is rejected
+//@ func (*Labels).DecodeMapstructure
+//@   nopanic[C03]
+//@   ensures[C03] err == nil <==> (isMap(value) || isList(value))
+// inactive: the spec language has no dereference of a pointer to a map/slice/scalar (*l, *m[k]), and
+// fmt.Sprint of a boxed string is an unconstrained string, so the decoded value cannot be stated:
+//@?  ensures[C03] isMap(value) ==> forall k string :: has(*l, k) <==> has(asMap(value), k)
+//@?  ensures[C03] isMap(value) ==> forall k string :: has(*l, k) ==> (*l)[k] == labelValue(asMap(value)[k])
+//@?  ensures[C03] isList(value) ==> forall i int :: 0 <= i && i < len(asList(value)) && isStr(asList(value)[i]) ==> has(*l, kvkey(asStr(asList(value)[i])))
+//@?  ensures[C03] err != nil ==> *l == old(*l)
+
+//@ func (*MappingWithEquals).DecodeMapstructure
+//@   nopanic[C03]
+//@   ensures[C03] err == nil <==> (isMap(value) || isList(value))
+//@?  ensures[C03] isMap(value) ==> forall k string :: has(*m, k) <==> has(asMap(value), k)
+//@?  ensures[C03] isMap(value) ==> forall k string :: has(*m, k) ==> ((*m)[k] == nil <==> asMap(value)[k] == nil)
+//@?  ensures[C03] isList(value) ==> (list ["k=v","k2"] and map {k:v,k2:null} decode to the same value)   // needs *m and fmt.Sprint(string)==string
+
+//@ func (*Mapping).DecodeMapstructure
+//@   nopanic[C03]
+//@   ensures[C03] err == nil <==> (isMap(value) || isList(value))
+
+//@ func decodeMapping
+//@   nopanic[C03]
+//@   ensures[C03] result != nil && fresh(result)
+
+// ---------------------------------------------------------------- hostList.go
+
+// C03: a list entry must be HOST=IP or HOST:IP; anything else is rejected, never loaded partially
+//@ func NewHostsList
+//@   nopanic[C03,C09]
+//@?  ensures[C03] (exists i int :: 0 <= i && i < len(hosts) && !contains(hosts[i], "=") && !contains(hosts[i], ":")) ==> err != nil
+//@   ensures[C03] err == nil ==> result.0 != nil && fresh(result.0)
+//@   ensures[C03] err == nil ==> forall k string :: has(result.0, k) ==> k != ""
+//@   loop 1
+//@     invariant -1 <= rangeindex && rangeindex < len(hosts)
+//@     invariant list != nil && fresh(list)
+//@?    invariant forall i int :: 0 <= i && i <= rangeindex ==> (contains(hosts[i], "=") || contains(hosts[i], ":"))
+
+//@ func (HostsList).AsList
+//@   nopanic[C09]
+
+//@ func (HostsList).MarshalYAML
+//@   nopanic[C09]
+//@   ensures[C09] err == nil
+
+//@ func (HostsList).MarshalJSON
+//@   nopanic[C09]
+
+// C03: empty or separator-bearing host names are rejected
+//@ func (HostsList).cleanup
+//@   nopanic[C03]
+//@   ensures[C03] result == nil ==> forall k string :: has(h, k) ==> k != ""
+//@   ensures[C03] forall k string :: has(h, k) <==> old(has(h, k))
+//@   ensures[C03] (exists k string :: old(has(h, k)) && k == "") ==> result != nil
+//@   ensures[C03] result == nil ==> forall k string :: has(h, k) ==> !ext_strings_ContainsAny_0(k, ":=")   // strings.ContainsAny assumed
+//@   loop 1
+//@     invariant forall k string :: has(h, k) <==> old(has(h, k))
+//@     invariant forall k string :: seen(k) ==> k != ""
+//@     invariant forall k string :: seen(k) ==> !ext_strings_ContainsAny_0(k, ":=")
+
+//@ func (*HostsList).DecodeMapstructure
+//@   nopanic[C03]
+//@   ensures[C03] !isMap(value) && !isList(value) ==> err != nil
+
+// ---------------------------------------------------------------- command.go
+
+//@ func (ShellCommand).IsZero
+//@   nopanic[C09]
+//@   ensures[C09] result <==> s == nil
+
+// C09: an unset command renders as null (omitted), an explicitly empty one stays a (empty) list
+//@ func (ShellCommand).MarshalYAML
+//@   nopanic[C09]
+//@   ensures[C09] err == nil
+//@   ensures[C09] s == nil <==> isNil(result.0)
+
+//@ func (*ShellCommand).DecodeMapstructure
+//@   nopanic[C03,C09]
+//@   ensures[C03] isList(value) ==> err == nil
+//@   ensures[C03] !isStr(value) && !isList(value) ==> err != nil   // FINDING: any other type is silently ignored
+
+// ---------------------------------------------------------------- healthcheck.go
+
+// C03: string s is ["CMD-SHELL", s]; a list is itself; everything else is rejected
+//@ func (*HealthCheckTest).DecodeMapstructure
+//@   nopanic[C03]
+//@   ensures[C03] err == nil <==> (isStr(value) || isList(value))
+//@?  ensures[C03] isStr(value) ==> len(*l) == 2 && (*l)[0] == "CMD-SHELL" && (*l)[1] == asStr(value)   // no *l in the spec language
+
+// ---------------------------------------------------------------- bytes.go / duration.go / cpus.go / device.go
+
+//@ func (UnitBytes).MarshalYAML
+//@   nopanic[C09]
+//@   ensures[C09] err == nil && isStr(result.0)
+
+//@ func (UnitBytes).MarshalJSON
+//@   nopanic[C09]
+//@   ensures[C09] err == nil
+
+//@ func (*UnitBytes).DecodeMapstructure
+//@   nopanic[C03,C09]
+//@   ensures[C09] isInt(value) ==> err == nil
+//@   ensures[C03] !isInt(value) && !isStr(value) ==> err != nil   // FINDING: any other type is silently ignored
+
+//@ func (Duration).String
+//@   nopanic[C09]
+
+//@ func (*Duration).DecodeMapstructure
+//@   nopanic[C09]
+
+//@ func (Duration).MarshalJSON
+//@   nopanic[C09]
+
+//@ func (Duration).MarshalYAML
+//@   nopanic[C09]
+//@   ensures[C09] err == nil && isStr(result.0)
+
+//@ func (*Duration).UnmarshalJSON
+//@   nopanic[C09]
+
+//@ func (*NanoCPUs).DecodeMapstructure
+//@   nopanic[C09]
+//@   ensures[C09] isInt(a) || isFloat(a) ==> err == nil
+//@   ensures[C09] isNil(a) || isBool(a) || isMap(a) || isList(a) ==> err != nil
+
+//@ func (*NanoCPUs).Value
+//@   nopanic[C09]
+
+// C03: "all" is -1; a number is itself; any other string or type is rejected
+//@ func (*DeviceCount).DecodeMapstructure
+//@   nopanic[C03,C09]
+//@   ensures[C03] isInt(value) ==> err == nil
+//@   ensures[C03] !isInt(value) && !isStr(value) ==> err != nil
+//@   ensures[C03] isStr(value) && ext_strings_ToLower_0(asStr(value)) == "all" ==> err == nil
+
+// ---------------------------------------------------------------- stringOrList.go / options.go
+
+// C03: string s is [s]; a list of strings is itself; anything else (also a list with a non-string) is rejected
+//@ func (*StringList).DecodeMapstructure
+//@   nopanic[C03]
+//@   ensures[C03] isStr(value) ==> err == nil
+//@   ensures[C03] !isStr(value) && !isList(value) ==> err != nil
+//@   ensures[C03] isList(value) ==> (err == nil <==> forall i int :: 0 <= i && i < len(asList(value)) ==> isStr(asList(value)[i]))
+//@   loop 1
+//@     invariant -1 <= rangeindex && rangeindex < len(asList(value))
+//@     invariant forall j int :: 0 <= j && j <= rangeindex ==> isStr(asList(value)[j])
+
+//@ func (*StringOrNumberList).DecodeMapstructure
+//@   nopanic[C03]
+//@   ensures[C03] err == nil <==> (isStr(value) || isList(value))
+
+//@ func (*Options).DecodeMapstructure
+//@   nopanic[C03]
+//@   ensures[C03] isMap(value) ==> err == nil
+//@   ensures[C03] isNil(value) || isStr(value) || isList(value) || isInt(value) || isBool(value) || isFloat(value) ==> err != nil
+
+// ---------------------------------------------------------------- ssh.go
+
+//@ func (SSHConfig).Get
+//@   nopanic[C03]
+//@   ensures[C03] err == nil ==> exists i int :: 0 <= i && i < len(s) && s[i].ID == id && s[i].Path == result.0
+//@   ensures[C03] (forall i int :: 0 <= i && i < len(s) ==> s[i].ID != id) ==> err != nil
+//@   loop 1
+//@     invariant -1 <= rangeindex && rangeindex < len(s)
+//@     invariant forall j int :: 0 <= j && j <= rangeindex ==> s[j].ID != id
+
+// C09: the rendering of a key must be what the ssh short syntax reads back: `ID` alone when there is
+// no path, `ID=PATH` otherwise (Compose spec, build.ssh).
+//@ func (SSHKey).MarshalYAML
+//@   nopanic[C09]
+//@   ensures[C09] err == nil && isStr(result.0)
+//@   ensures[C09] s.Path == "" ==> asStr(result.0) == s.ID
+//@   ensures[C09] s.Path != "" ==> asStr(result.0) == s.ID + "=" + s.Path
+
+//@ func (SSHKey).MarshalJSON
+//@   nopanic[C09]
+//@   ensures[C09] err == nil
+
+// C03: ssh is decoded from its long (mapping) form only; the short forms are canonicalised before
+//@ func (*SSHConfig).DecodeMapstructure
+//@   nopanic[C03]
+//@   ensures[C03] err == nil <==> isMap(value)
+
+// ---------------------------------------------------------------- envfile.go
+
+// C09/C03: the short form (a plain path) denotes {path, required: true}; a non-required file must be
+// rendered in the long form carrying path, required (and format when set) so that it reloads equal.
+//@ func (EnvFile).MarshalYAML
+//@   nopanic[C09]
+//@   ensures[C09] err == nil
+//@   ensures[C09] isStr(result.0) ==> e.Required && e.Format == "" && asStr(result.0) == e.Path
+//@   ensures[C09] !e.Required ==> isMap(result.0) && has(asMap(result.0), "path") && asMap(result.0)["path"] == mkStr(e.Path)
+//@   ensures[C09] !e.Required ==> has(asMap(result.0), "required") && asMap(result.0)["required"] == mkBool(false)
+//@   ensures[C09] !e.Required && e.Format != "" ==> has(asMap(result.0), "format") && asMap(result.0)["format"] == mkStr(e.Format)
+
+//@ func (*EnvFile).MarshalJSON
+//@   nopanic[C09]
+
+// ---------------------------------------------------------------- types.go / config.go
+
+//@ func (ServiceConfig).MarshalYAML
+//@   nopanic[C09]
+//@   ensures[C09] err == nil
+
+// C03: an integer is the single-value form (soft = hard = that value), a mapping gives soft and hard
+//@ func (*UlimitsConfig).DecodeMapstructure
+//@   nopanic[C03,C09]
+//@   ensures[C03,C09] isInt(value) ==> err == nil && u.Single == asInt(value) && u.Soft == 0 && u.Hard == 0
+//@   ensures[C03,C09] isMap(value) && has(asMap(value), "soft") && has(asMap(value), "hard") ==> err == nil && u.Single == 0
+//@       && u.Soft == asInt(asMap(value)["soft"]) && u.Hard == asInt(asMap(value)["hard"])
+//@   ensures[C03] isNil(value) || isStr(value) || isBool(value) || isList(value) || isFloat(value) ==> err != nil
+//@   ensures[C03] err != nil ==> u.Single == old(u.Single) && u.Soft == old(u.Soft) && u.Hard == old(u.Hard)
+
+// C09: a ulimit loaded from the single-value form (Single != 0, whatever its sign: -1 is "unlimited")
+// renders as that integer; otherwise as a soft/hard mapping, so that it reloads to the same value.
+//@ func (*UlimitsConfig).MarshalYAML
+//@   nopanic[C09]
+//@   ensures[C09] err == nil
+//@   ensures[C09] u.Single != 0 ==> isInt(result.0) && asInt(result.0) == u.Single
+//@   ensures[C09] u.Single == 0 ==> !isInt(result.0) && !isNil(result.0)
+//@   ensures[C09] u.Single == old(u.Single) && u.Soft == old(u.Soft) && u.Hard == old(u.Hard)
+
+//@ func (*UlimitsConfig).MarshalJSON
+//@   nopanic[C09]
+
+// C20: secret content is never rendered unless explicitly requested; rendering does not modify the project
+//@ func (SecretConfig).MarshalYAML
+//@   nopanic[C20,C09]
+//@   ensures[C20] err == nil
+// inactive: the result is a FileObjectConfig struct boxed in `any`; the spec language cannot unbox it, and the
+// engine currently emits an undeclared sort T_types_FileObjectConfig for this function (all obligations: error)
+//@?  ensures[C20] !s.marshallContent ==> unbox(result.0).Content == ""
+//@?  ensures[C20] s.marshallContent ==> unbox(result.0).Content == s.Content
+//@?  ensures[C20] unbox(result.0).Name == s.Name && unbox(result.0).File == s.File && unbox(result.0).Environment == s.Environment
+
+//@ func (SecretConfig).MarshalJSON
+//@   nopanic[C20,C09]
+
+//@ func (ConfigObjConfig).MarshalYAML
+//@   nopanic[C20,C09]
+//@   ensures[C20] err == nil
+//@?  ensures[C20,C09] s.Environment != "" ==> unbox(result.0).Content == "" && unbox(result.0).Environment == s.Environment
+//@?  ensures[C20,C09] s.Environment == "" ==> unbox(result.0).Content == s.Content
+
+//@ func (ConfigObjConfig).MarshalJSON
+//@   nopanic[C20,C09]
+
+//@ func (Config).MarshalJSON
+//@   nopanic[C09]
